@@ -4,6 +4,15 @@ import itertools
 from . import core
 
 PID = "C17"
+MANIFEST = dict(text="Theorems reachable_invariant / ops_refine / views_agree / spec_meaning: for every initial pair list and every "
+             "operation sequence the dict+list representation of MutableMultiMapping refines a plain ordered pair list and all views "
+             "agree with it; the model (dict as ordered association list, MutableMapping mix-in methods) is compared with the live "
+             "class on all operation sequences up to length 2 (thorough 3) from all small initial lists plus random long sequences.",
+        note="Modelled, not verified: Python dict ordering, the collections.abc.MutableMapping mix-in. "
+             "query_roundtrip (parse_qsl/urlencode) is covered by the correspondence and oracle only in this version.",
+        technique="Coq proof (representation invariant by induction over operations, refinement to a list specification) + correspondence",
+        ref="5/C17")
+
 RULE = ("cases: every operation sequence up to length n (quick 2, thorough 3) over the 33-operation alphabet on keys {0,1} "
         "values {5,6} from every initial pair list of <=2 (quick: also <=3 for length 1) pairs (exhaustive), random sequences "
         "of length <=40 over 4 keys, and immutable QueryParams/FormData/MultiMapping views of the same pairs; "
